@@ -29,7 +29,7 @@ VARIABLES l, m, cur, viol
 vars == << l, m, cur, viol >>
 
 NoLim == [ibs |-> 0, mb_rows |-> 0, mb_bytes |-> 0, mrg_rows |-> 0, mrg_bytes |-> 0,
-          mb_time_ms |-> 0, timed |-> 0, seqmode |-> 0, fs |-> 0]
+          mb_time_ms |-> 0, timed |-> 0, seqmode |-> 0, fs |-> 0, bp_bound |-> 0]
 
 Fresh(t) ==
   [ tid |-> t, lim |-> NoLim,
@@ -189,7 +189,9 @@ P_WaitersTold(s, c) ==
       \A b \in B : (Accepted(s, b) /\ s.chn[b] \in {"buf", "unbuf"}) => Len(s.answers[b]) = 1
 
 \* C09 -------------------------------------------------------------------
-P_Backpressure(s, c) == s.lim.ibs > 0 => s.unansweredAtQuiet <= s.lim.ibs + 3 * (s.lim.mb_rows + 1) + 1
+\* (a program whose shape fixes how many batches a flush request can carry declares the bound that follows from it)
+P_Backpressure(s, c) == s.lim.ibs > 0 => s.unansweredAtQuiet <= (IF s.lim.bp_bound > 0 THEN s.lim.bp_bound
+                                                                  ELSE s.lim.ibs + 3 * (s.lim.mb_rows + 1) + 1)
 P_CanceledCallersReturn(s, c) == s.settled => \A b \in s.canceled : s.retSeq[b] # 0
 
 \* C10 -------------------------------------------------------------------
